@@ -39,7 +39,10 @@ let run es ext stem outdir pm cm qf table prio types =
   let strop x = match List.assoc_opt x table with Some y -> y | None -> x in
   let perm = order prio pm and cperm = order prio cm in
   let ek = if qf then strop else same in
-  let (s, root) = build strop ek es ext outdir perm types in
+  (* pin_c11tree_stem_check: regenerated from /repo (does build_namespace_tree have the stem check?) *)
+  match build_checked pin_c11tree_stem_check strop ek es ext stem outdir perm types with
+  | None -> print_string "RAISE\nEND\n"
+  | Some (s, root) ->
   print_string ("ROOT " ^ show_key root ^ "\n");
   print_string ("FOLD " ^ (if ns_fold strop types then "1" else "0") ^ "\n");
   List.iter (fun (k, n) ->
